@@ -137,15 +137,16 @@ def check_run(res, g, rec, result, err, gap, desc):
             res.check("major_score_carried", abs(ms - majors[mk]) < 1e-9,
                       "major solution's score at the minor stage is not its raw score plus the structure difference",
                       got=ms, expected=majors[mk], **desc)
-    cands = {}
+    # candidates are kept as a multiset: the minor stage may return the same refinement twice when two
+    # copies of one allele are interchangeable (only the copy carrying an added variant differs)
+    cands = []
     for mk, ck, ms, lst in rec.minor_calls:
         if mk not in majors:
             continue
         cs = cn_scores.get(ck, major_cn.get(mk))
         for sk, raw in lst:
             comb = (raw + majors[mk] - min_m) * ((cs + SLACK) / (min_c + SLACK))
-            if sk not in cands or comb < cands[sk]:
-                cands[sk] = comb
+            cands.append((sk, comb))
     if not cands:
         res.check("empty_stage_error", isinstance(err, AldyException) and not sols,
                   "no refined solution but no error / a genotype was reported", error=repr(err), **desc)
@@ -154,24 +155,29 @@ def check_run(res, g, rec, result, err, gap, desc):
               error=repr(err), **desc)
     if err is not None:
         return None
-    best = min(cands.values())
-    expected = {k: v for k, v in cands.items() if v - best - gap < PREC}
-    edge = {k for k, v in cands.items() if abs(v - best - gap - PREC) < 1e-6}
-    got = {}
-    for s in sols:
-        got[minor_key(s)] = s.score
-    res.check("reported_set", set(got) - edge == set(expected) - edge and len(got) == len(sols),
+    best = min(v for _, v in cands)
+    expected = collections.Counter(k for k, v in cands if v - best - gap < PREC)
+    edge = {k for k, v in cands if abs(v - best - gap - PREC) < 1e-6}
+    got = collections.Counter(minor_key(s) for s in sols)
+    for k in edge:
+        expected.pop(k, None)
+        got.pop(k, None)
+    res.check("reported_set", got == expected,
               "reported solutions are not exactly the refined candidates within the gap of the best combined score",
-              missing=[str(k[1]) for k in set(expected) - set(got)][:3],
-              surplus=[str(k[1]) for k in set(got) - set(expected)][:3],
+              missing=[str(k[1]) for k in (expected - got)][:3],
+              surplus=[str(k[1]) for k in (got - expected)][:3],
               n_candidates=len(cands), best=best, **desc)
-    for k, v in got.items():
-        if k in cands:
-            res.check("reported_score", abs(v - cands[k]) < 1e-6 * max(1, abs(v)),
+    by_key = collections.defaultdict(list)
+    for k, v in cands:
+        by_key[k].append(v)
+    for s in sols:
+        k = minor_key(s)
+        if k in by_key:
+            res.check("reported_score", any(abs(s.score - v) < 1e-6 * max(1, abs(v)) for v in by_key[k]),
                       "reported score is not the combined score (minor + carried major difference, rescaled by the "
-                      "structure score)", got=v, expected=cands[k], solution=str(k[1]), **desc)
+                      "structure score)", got=s.score, expected=by_key[k], solution=str(k[1]), **desc)
     scores = [int(1000 * s.score) for s in sols]
-    res.check("ordered", scores == sorted(scores) and (not sols or abs(sols[0].score - min(got.values())) < 1e-3),
+    res.check("ordered", scores == sorted(scores) and (not sols or abs(sols[0].score - best) < 1e-3),
               "reported solutions are not listed best first", scores=[s.score for s in sols], **desc)
     # ---- consistent chains
     for s in sols:
@@ -194,7 +200,7 @@ def check_run(res, g, rec, result, err, gap, desc):
                   "diplotype does not list each allele once", diplotype=s.diplotype, **desc)
         res.check("chain_recorded", major_key(s.major_solution) in majors and cn_key(cn) in cn_scores,
                   "reported solution does not derive from recorded stage candidates", **desc)
-    return len(cands), len({k[0] for k in cands}), len(cn_scores)
+    return len(cands), len({k[0] for k, _ in cands}), len(cn_scores)
 
 
 def _sample_case(res, rng, ident):
